@@ -3,6 +3,8 @@ package adapters
 import (
 	"fmt"
 	"sort"
+	"sync"
+	"time"
 
 	"github.com/bio-routing/bio-rd/protocols/isis/packet"
 	isis "github.com/bio-routing/bio-rd/protocols/isis/server"
@@ -66,7 +68,49 @@ func (r lsdbEntryRec) key() string {
 	return fmt.Sprintf("%s seq=%d life=%d srm=%v ssn=%v", r.ID, r.Seq, r.Life, s, n)
 }
 
+// isisGates parks goroutines of the IS-IS server at named points (isis.VerifGate).
+type isisGateSet struct {
+	mu sync.Mutex
+	m  map[string]*collGate
+}
+
+var isisGates = &isisGateSet{m: map[string]*collGate{}}
+
+func (g *isisGateSet) arm(point string) *collGate {
+	g.mu.Lock()
+	defer g.mu.Unlock()
+	x := &collGate{arrived: make(chan struct{}, 1), release: make(chan struct{})}
+	g.m[point] = x
+	return x
+}
+func (g *isisGateSet) releaseAll() {
+	g.mu.Lock()
+	defer g.mu.Unlock()
+	for k, x := range g.m {
+		close(x.release)
+		delete(g.m, k)
+	}
+}
+func (g *isisGateSet) hit(point string) {
+	g.mu.Lock()
+	x := g.m[point]
+	g.mu.Unlock()
+	if x == nil {
+		return
+	}
+	select {
+	case x.arrived <- struct{}{}:
+	default:
+	}
+	select {
+	case <-x.release:
+	case <-time.After(10 * time.Second):
+	}
+}
+
 func init() {
+	isis.VerifGate = isisGates.hit
+
 	core.Register("isislsdb", func(b *core.Behaviour, p core.Params) *core.Divergence {
 		var env *isisEnv
 		defer func() {
@@ -307,6 +351,38 @@ func init() {
 				l.SetChecksum()
 				if d := inject(i, a, st.Str("ifa"), isisFrame(packet.L2_LS_PDU_TYPE, packet.LSPDUMinLen, l)); d != nil {
 					return d
+				}
+			case "RecvOwnBurst":
+				// both copies are processed before the updater routine regenerates the local LSP: the updater is parked at its gate
+				g := isisGates.arm("lsp-update-begins")
+				for _, k := range []string{"seq1", "seq2"} {
+					l := &packet.LSPDU{RemainingLifetime: uint16(st.Int("life")), LSPID: lspid("own"), SequenceNumber: realSeq("own", st.Int(k)),
+						TLVs: []packet.TLV{packet.NewAreaAddressesTLV([]types.AreaID{isisArea})}}
+					l.UpdateLength()
+					l.SetChecksum()
+					if d := inject(i, a, st.Str("ifa"), isisFrame(packet.L2_LS_PDU_TYPE, packet.LSPDUMinLen, l)); d != nil {
+						isisGates.releaseAll()
+						return d
+					}
+				}
+				select {
+				case <-g.arrived:
+				case <-time.After(200 * time.Millisecond): // no regeneration was requested: the comparison below reports it
+				}
+				isisGates.releaseAll()
+				// the two requests may make the updater regenerate twice: any number above both copies satisfies the property; the
+				// model continues from the number the code chose
+				wantOwn := 0
+				for _, e := range want.DB {
+					if e.ID == "own" {
+						wantOwn = e.Seq
+					}
+				}
+				isisWaitFor(func() bool { return quiet() && absSeq("own", env.ownSeq()) >= wantOwn })
+				time.Sleep(5 * time.Millisecond)
+				isisWaitFor(quiet)
+				if extra := absSeq("own", env.ownSeq()) - wantOwn; extra > 0 && extra <= 2 {
+					off += extra
 				}
 			case "RecvPSNP", "RecvCSNP":
 				var es []snpEntryRec
